@@ -293,6 +293,9 @@ def mutation_table():
         ("quaternion_schur", lambda X: d.schur.quaternion_schur(X, max_iter=20), [Sq]),
         ("quaternion_schur_unified(rayleigh)", lambda X: d.schur.quaternion_schur_unified(X, variant="rayleigh", max_iter=20), [Sq]),
         ("quaternion_schur_unified(aed)", lambda X: d.schur.quaternion_schur_unified(X, variant="aed", max_iter=20), [Sq]),
+        ("quaternion_schur_unified(ds)", lambda X: d.schur.quaternion_schur_unified(X, variant="ds", max_iter=20), [Sq]),
+        ("quaternion_schur_unified(aed,window)", lambda X: d.schur.quaternion_schur_unified(X, variant="aed", max_iter=20, aed_window=2), [Sq]),
+        ("quaternion_schur_unified(implicit)", lambda X: d.schur.quaternion_schur_unified(X, variant="implicit", max_iter=20), [Sq]),
         ("tensor_unfold", lambda X: t.tensor_unfold(X, 1), [T3]),
         ("tensor_unfold(0)", lambda X: t.tensor_unfold(X, 0), [T3]),
         ("tensor_unfold(2)", lambda X: t.tensor_unfold(X, 2), [T3]),
@@ -385,6 +388,10 @@ def _mutation_events(tid0):
         nz = a.copy()
         nz[np.abs(nz) < 0.2] *= -0.0
         out.append(("negative-zeros", nz))
+        # boundary sizes: leading 2 x 2 and 1 x 1 parts (nothing to reduce, nothing to eliminate: the paths on which a
+        # routine is tempted to hand back or work on its argument instead of a copy)
+        out.append(("leading-2x2", a[:2, :2].copy()))
+        out.append(("leading-1x1", a[:1, :1].copy()))
         return out
 
     skip_exc = (ValueError, ZeroDivisionError, np.linalg.LinAlgError)
@@ -404,6 +411,9 @@ def _mutation_events(tid0):
                     f(*qa)
             except skip_exc:
                 pass            # a rejected structured input (e.g. LU of a zero matrix) must still leave it untouched
+            except Exception:
+                if not vname.startswith("leading-"):
+                    raise       # boundary sizes may be outside a routine's domain (target rank 2 of a 1 x 1 matrix)
             ev.append({"tid": tid, "ev": "Mutation", "fn": name, "variant": vname, "args_unchanged": [sha(a) for a in qa] == before})
             if vname == "dense":
                 # what a call RETURNS belongs to the caller: after the caller has overwritten the returned arrays in place,
